@@ -75,7 +75,6 @@ def run_shard(desc):
             for ref_idx in range(n):
                 labels = sp.LABELS_PLAIN[:n] if (orient + ref_idx) % 2 == 0 else sp.LABELS_ODD[:n]
                 nl = cm.build_netlist(topo, kt, orient, ref_idx, labels, "real", sp.IDS_ASC[:b])
-                res["evals"] += 1
                 explore(nl, [], depth, res, seen)
     return res
 
@@ -372,6 +371,7 @@ def _explore(nl_init, net, nl, hist, depth, res, seen, only):
         case = {"initial": nl_init, "history": [list(h) for h in hist], "op": [op[0], op[1]]}
         snap = snapshot(net)
         res["transitions"] += 1
+        res["evals"] += 1       # one evaluation = one real transformer call judged
         try:
             out, keep_objs = apply_op(net, op)
             keep_snap = None if keep_objs is None else [repr(k) for k in keep_objs]
